@@ -122,6 +122,162 @@ theorem parseData_obs (W : World N V T) (hW : LowerIdem W) (s : Sig N V T) (wf :
   · simp only [hd, Bool.false_eq_true, if_false]
     exact fieldFirst_obs W hW s wf o excl kw h1 h3 h5 hn hpo hreq
 
+/-- the refinement step behind `C08_binding_partial`, with what `parse_params` hands to the raw call exposed -/
+theorem binding_core (W : World N V T) (hW : LowerIdem W) (s : Sig N V T) (wf : WF W s) (o : Opts)
+    (args : List V) (kw : List (N × V)) (b0 : Binding N V)
+    (hk : KnownDefect.privateKw W s kw = false) (ha : KnownDefect.privateAnnotated W s = false)
+    (hpb : Spec.pyBind s args (Spec.normalise W s kw) = some b0) :
+    match Spec.convArgs W (s.vp.bind (·.2)) s.pos args, Spec.convKw W s (Spec.normalise W s kw) with
+    | some cas, some c => ∃ args' kw', parseParams W s o args kw = .ok (args', kw') ∧
+        pyBindCore s args' kw' = pyBindCore s cas c ∧
+        kw'.filter (fun e => !isTarget s e) = c.filter (fun e => !isTarget s e)
+    | _, _ => parseParams W s o args kw = .error .perr := by
+  unfold Spec.pyBind at hpb
+  split at hpb
+  · rename_i hn
+    obtain ⟨hlen, ⟨bp, hbp⟩, ⟨bk, hbk⟩, hvk⟩ := pyBindCore_some s args _ b0 hpb
+    -- the hypotheses of the keyword half
+    have h1 : ∀ e ∈ kw, e.1 ∉ s.excludeVars W := by
+      intro e he hmem
+      have : KnownDefect.privateKw W s kw = true := by
+        unfold KnownDefect.privateKw
+        exact List.any_eq_true.mpr ⟨e, he, by simpa using hmem⟩
+      rw [hk] at this; cases this
+    have hpa : ∀ p ∈ s.pos, W.priv p.name = true → p.ann = none := by
+      intro p hp hpriv
+      cases hann : p.ann with
+      | none => rfl
+      | some t =>
+        exfalso
+        have : KnownDefect.privateAnnotated W s = true := by
+          unfold KnownDefect.privateAnnotated
+          exact List.any_eq_true.mpr ⟨p, List.mem_append_left _ hp, by simp [hpriv, hann]⟩
+        rw [ha] at this; cases this
+    have hpos_names : (s.pos.map (·.name)).Nodup := by
+      have := wf.names_nodup
+      rw [List.map_append] at this
+      exact (List.nodup_append.mp this).1
+    obtain ⟨excl, hexcl⟩ : ∃ excl, excl = keysOf W s.pos args := ⟨_, rfl⟩
+    have h3 : ∀ e ∈ kw, ∀ f, resolve W (s.fields W) e.1 = some f → f.posOnly = false →
+        excl.contains f.name = false := by
+      intro e he f hr hpo
+      cases hc : excl.contains f.name with
+      | false => rfl
+      | true =>
+        exfalso
+        have hm : f.name ∈ excl := by simpa using hc
+        rw [hexcl] at hm
+        obtain ⟨q, hq, hqn, hq'⟩ := keysOf_given W _ s.pos args bp f.name hbp hm
+        obtain ⟨hnk, hkwp, _, _, _⟩ := key_field W hW s wf e.1 (h1 e he) f hr hpo
+        have hqf : q = f := eq_of_name_eq wf.names_nodup (List.mem_append_left _ hq)
+          (kwParams_sub W hW s wf f hkwp).1 hqn
+        subst hqf
+        rcases hq' with h | h
+        · rw [hpo] at h; cases h
+        · have hmem : (q.name, e.2) ∈ Spec.normalise W s kw := by
+            simp only [Spec.normalise, List.mem_map]; exact ⟨e, he, by rw [hnk]⟩
+          have := lookup_of_mem_nodup _ hn _ hmem
+          simp only at this
+          rw [h] at this; cases this
+    have h5 : s.vk = none → ∀ e ∈ kw, s.kwTarget (Spec.normKey W s e.1) = true := by
+      intro hv e he
+      have hnil := hvk hv
+      rw [List.filter_eq_nil_iff] at hnil
+      have := hnil (Spec.normKey W s e.1, e.2)
+        (by simp only [Spec.normalise, List.mem_map]; exact ⟨e, he, rfl⟩)
+      simpa using this
+    have hpo : ∀ f ∈ s.fields W, f.posOnly = true → excl.contains f.name = true := by
+      intro f hf hfpo
+      obtain ⟨hmem, hnp⟩ := (mem_fields W s f).mp hf
+      have hfp : f ∈ s.pos := by
+        rcases List.mem_append.mp hmem with h | h
+        · exact h
+        · rw [wf.kos_not_po f h] at hfpo; cases hfpo
+      rw [hexcl]
+      simpa using po_mem_keysOf W s.pos args f hfp hfpo hnp
+    have hreq : ∀ f ∈ s.fields W, excl.contains f.name = false →
+        ((Spec.normalise W s kw).lookup f.name).isSome = true ∨ f.dflt.isSome = true := by
+      intro f hf hex
+      obtain ⟨hmem, hnp⟩ := (mem_fields W s f).mp hf
+      rcases List.mem_append.mp hmem with h | h
+      · refine not_keysOf_omitted W _ s.pos args bp f hbp h hnp ?_
+        intro hm
+        rw [← hexcl] at hm
+        have : excl.contains f.name = true := by simpa using hm
+        rw [hex] at this; cases this
+      · exact bindKos_mem _ s.kos bk hbk f h
+    have hpd := parseData_obs W hW s wf o excl kw h1 h3 h5 hn hpo hreq
+    have hps := posStage_eq W s (Spec.normalise W s kw) s.pos args bp hpa hbp hlen
+    unfold parseParams
+    cases hca : Spec.convArgs W (s.vp.bind (·.2)) s.pos args with
+    | none =>
+      simp only [hca] at hps
+      simp [hps]
+    | some cas =>
+      simp only [hca] at hps
+      obtain ⟨fill, hfill, hps'⟩ := hps
+      simp only [hps', ← hexcl]
+      cases hck : Spec.convKw W s (Spec.normalise W s kw) with
+      | none =>
+        simp only [hck] at hpd
+        simp [hpd]
+      | some c =>
+        simp only [hck] at hpd
+        obtain ⟨kw', hpd', hobs1, hobs2⟩ := hpd
+        simp only [hpd']
+        have hckeys : c.map (·.1) = (Spec.normalise W s kw).map (·.1) := convKw_keys W s _ c hck
+        have hkeys : ∀ x, (Spec.normalise W s kw).lookup x = none → c.lookup x = none := by
+          intro x hx
+          rw [lookup_eq_none_iff_not_mem] at hx ⊢
+          rw [hckeys]; exact hx
+        have hprivkey : ∀ p ∈ Spec.kwParams s, W.priv p.name = true → c.lookup p.name = none := by
+          intro p hp hpriv
+          apply hkeys
+          rw [lookup_eq_none_iff_not_mem]
+          intro hmem
+          simp only [Spec.normalise, List.map_map, List.mem_map, Function.comp] at hmem
+          obtain ⟨e, he, hne⟩ := hmem
+          rcases key_cases W hW s wf excl kw h1 h3 e he with ⟨f, hf, h2, h3', _, _⟩ | ⟨h2, h3'⟩
+          · have hfp : f = p := eq_of_name_eq wf.names_nodup (kwParams_sub W hW s wf f hf).1
+              (kwParams_sub W hW s wf p hp).1 (by rw [← h2, hne])
+            subst hfp
+            rw [hpriv] at h3'; cases h3'
+          · rw [h2] at hne
+            rw [hne, (kwTarget_iff s _).mpr ⟨p, hp, rfl⟩] at h3'; cases h3'
+        have hcaslen : cas.length = args.length := convArgs_length W _ s.pos args cas hca
+        have hposok : PosOK kw' c s.pos cas.length := by
+          rw [hcaslen]
+          exact posOK_of_obs W s kw' c (Spec.normalise W s kw) excl hobs1 hprivkey hkeys s.pos args bp []
+            (fun p hp => hp) hpos_names (by intro p _ h; cases h) (by simpa using hexcl) hbp
+        have hfinal : pyBindCore s (cas ++ fill) kw' = pyBindCore s cas c := by
+          apply pyBindCore_final
+          · exact bindPos_final W kw' c s.pos cas fill hposok wf.po_first (by rw [hcaslen]; exact hfill)
+          · apply bindKos_congr
+            intro p hp
+            have hkwp : p ∈ Spec.kwParams s := (mem_kwParams s p).mpr (Or.inr hp)
+            rw [hobs1 p hkwp]
+            have hnex : excl.contains p.name = false := by
+              cases hc : excl.contains p.name with
+              | false => rfl
+              | true =>
+                exfalso
+                have hm : p.name ∈ excl := by simpa using hc
+                rw [hexcl] at hm
+                have h1' := keysOf_sub_names W s.pos args _ hm
+                have hnd := wf.names_nodup
+                rw [List.map_append, List.nodup_append] at hnd
+                exact hnd.2.2 _ h1' _ (List.mem_map_of_mem hp) rfl
+            by_cases hpriv : W.priv p.name = true
+            · simp [hpriv, hprivkey p hkwp hpriv]
+            · have hpriv' : W.priv p.name = false := by simpa using hpriv
+              simp only [hpriv', hnex, Bool.or_self, Bool.false_eq_true, if_false]
+              cases c.lookup p.name <;> simp
+          · exact hobs2
+          · rw [hcaslen]; exact fillPo_length W _ true fill hfill
+        exact ⟨cas ++ fill, kw', rfl, hfinal, hobs2⟩
+  · cases hpb
+
+
 /-
 **C08 (binding), full statement** — false of the code as it stands, see the two witnesses below:
 
@@ -153,155 +309,26 @@ theorem C08_binding_partial (W : World N V T) (hW : LowerIdem W) (s : Sig N V T)
   | none => simp [hpb] at hexp
   | some b0 =>
     simp only [hpb] at hexp
-    unfold Spec.pyBind at hpb
-    split at hpb
-    · rename_i hn
-      obtain ⟨hlen, ⟨bp, hbp⟩, ⟨bk, hbk⟩, hvk⟩ := pyBindCore_some s args _ b0 hpb
-      -- the hypotheses of the keyword half
-      have h1 : ∀ e ∈ kw, e.1 ∉ s.excludeVars W := by
-        intro e he hmem
-        have : KnownDefect.privateKw W s kw = true := by
-          unfold KnownDefect.privateKw
-          exact List.any_eq_true.mpr ⟨e, he, by simpa using hmem⟩
-        rw [hk] at this; cases this
-      have hpa : ∀ p ∈ s.pos, W.priv p.name = true → p.ann = none := by
-        intro p hp hpriv
-        cases hann : p.ann with
-        | none => rfl
-        | some t =>
-          exfalso
-          have : KnownDefect.privateAnnotated W s = true := by
-            unfold KnownDefect.privateAnnotated
-            exact List.any_eq_true.mpr ⟨p, List.mem_append_left _ hp, by simp [hpriv, hann]⟩
-          rw [ha] at this; cases this
-      have hpos_names : (s.pos.map (·.name)).Nodup := by
-        have := wf.names_nodup
-        rw [List.map_append] at this
-        exact (List.nodup_append.mp this).1
-      obtain ⟨excl, hexcl⟩ : ∃ excl, excl = keysOf W s.pos args := ⟨_, rfl⟩
-      have h3 : ∀ e ∈ kw, ∀ f, resolve W (s.fields W) e.1 = some f → f.posOnly = false →
-          excl.contains f.name = false := by
-        intro e he f hr hpo
-        cases hc : excl.contains f.name with
-        | false => rfl
-        | true =>
-          exfalso
-          have hm : f.name ∈ excl := by simpa using hc
-          rw [hexcl] at hm
-          obtain ⟨q, hq, hqn, hq'⟩ := keysOf_given W _ s.pos args bp f.name hbp hm
-          obtain ⟨hnk, hkwp, _, _, _⟩ := key_field W hW s wf e.1 (h1 e he) f hr hpo
-          have hqf : q = f := eq_of_name_eq wf.names_nodup (List.mem_append_left _ hq)
-            (kwParams_sub W hW s wf f hkwp).1 hqn
-          subst hqf
-          rcases hq' with h | h
-          · rw [hpo] at h; cases h
-          · have hmem : (q.name, e.2) ∈ Spec.normalise W s kw := by
-              simp only [Spec.normalise, List.mem_map]; exact ⟨e, he, by rw [hnk]⟩
-            have := lookup_of_mem_nodup _ hn _ hmem
-            simp only at this
-            rw [h] at this; cases this
-      have h5 : s.vk = none → ∀ e ∈ kw, s.kwTarget (Spec.normKey W s e.1) = true := by
-        intro hv e he
-        have hnil := hvk hv
-        rw [List.filter_eq_nil_iff] at hnil
-        have := hnil (Spec.normKey W s e.1, e.2)
-          (by simp only [Spec.normalise, List.mem_map]; exact ⟨e, he, rfl⟩)
-        simpa using this
-      have hpo : ∀ f ∈ s.fields W, f.posOnly = true → excl.contains f.name = true := by
-        intro f hf hfpo
-        obtain ⟨hmem, hnp⟩ := (mem_fields W s f).mp hf
-        have hfp : f ∈ s.pos := by
-          rcases List.mem_append.mp hmem with h | h
-          · exact h
-          · rw [wf.kos_not_po f h] at hfpo; cases hfpo
-        rw [hexcl]
-        simpa using po_mem_keysOf W s.pos args f hfp hfpo hnp
-      have hreq : ∀ f ∈ s.fields W, excl.contains f.name = false →
-          ((Spec.normalise W s kw).lookup f.name).isSome = true ∨ f.dflt.isSome = true := by
-        intro f hf hex
-        obtain ⟨hmem, hnp⟩ := (mem_fields W s f).mp hf
-        rcases List.mem_append.mp hmem with h | h
-        · refine not_keysOf_omitted W _ s.pos args bp f hbp h hnp ?_
-          intro hm
-          rw [← hexcl] at hm
-          have : excl.contains f.name = true := by simpa using hm
-          rw [hex] at this; cases this
-        · exact bindKos_mem _ s.kos bk hbk f h
-      have hpd := parseData_obs W hW s wf o excl kw h1 h3 h5 hn hpo hreq
-      have hps := posStage_eq W s (Spec.normalise W s kw) s.pos args bp hpa hbp hlen
-      unfold call parseParams
-      cases hca : Spec.convArgs W (s.vp.bind (·.2)) s.pos args with
+    have hcore := binding_core W hW s wf o args kw b0 hk ha hpb
+    unfold call
+    cases hca : Spec.convArgs W (s.vp.bind (·.2)) s.pos args with
+    | none =>
+      simp only [hca] at hcore hexp
+      cases hexp
+      simp [hcore]
+    | some cas =>
+      cases hck : Spec.convKw W s (Spec.normalise W s kw) with
       | none =>
-        simp only [hca] at hps hexp
+        simp only [hca, hck] at hcore hexp
         cases hexp
-        simp [hps]
-      | some cas =>
-        simp only [hca] at hps hexp
-        obtain ⟨fill, hfill, hps'⟩ := hps
-        simp only [hps', ← hexcl]
-        cases hck : Spec.convKw W s (Spec.normalise W s kw) with
-        | none =>
-          simp only [hck] at hpd hexp
-          cases hexp
-          simp [hpd]
-        | some c =>
-          simp only [hck] at hpd hexp
-          obtain ⟨kw', hpd', hobs1, hobs2⟩ := hpd
-          simp only [hpd']
-          have hckeys : c.map (·.1) = (Spec.normalise W s kw).map (·.1) := convKw_keys W s _ c hck
-          have hkeys : ∀ x, (Spec.normalise W s kw).lookup x = none → c.lookup x = none := by
-            intro x hx
-            rw [lookup_eq_none_iff_not_mem] at hx ⊢
-            rw [hckeys]; exact hx
-          have hprivkey : ∀ p ∈ Spec.kwParams s, W.priv p.name = true → c.lookup p.name = none := by
-            intro p hp hpriv
-            apply hkeys
-            rw [lookup_eq_none_iff_not_mem]
-            intro hmem
-            simp only [Spec.normalise, List.map_map, List.mem_map, Function.comp] at hmem
-            obtain ⟨e, he, hne⟩ := hmem
-            rcases key_cases W hW s wf excl kw h1 h3 e he with ⟨f, hf, h2, h3', _, _⟩ | ⟨h2, h3'⟩
-            · have hfp : f = p := eq_of_name_eq wf.names_nodup (kwParams_sub W hW s wf f hf).1
-                (kwParams_sub W hW s wf p hp).1 (by rw [← h2, hne])
-              subst hfp
-              rw [hpriv] at h3'; cases h3'
-            · rw [h2] at hne
-              rw [hne, (kwTarget_iff s _).mpr ⟨p, hp, rfl⟩] at h3'; cases h3'
-          have hcaslen : cas.length = args.length := convArgs_length W _ s.pos args cas hca
-          have hposok : PosOK kw' c s.pos cas.length := by
-            rw [hcaslen]
-            exact posOK_of_obs W s kw' c (Spec.normalise W s kw) excl hobs1 hprivkey hkeys s.pos args bp []
-              (fun p hp => hp) hpos_names (by intro p _ h; cases h) (by simpa using hexcl) hbp
-          have hfinal : pyBindCore s (cas ++ fill) kw' = pyBindCore s cas c := by
-            apply pyBindCore_final
-            · exact bindPos_final W kw' c s.pos cas fill hposok wf.po_first (by rw [hcaslen]; exact hfill)
-            · apply bindKos_congr
-              intro p hp
-              have hkwp : p ∈ Spec.kwParams s := (mem_kwParams s p).mpr (Or.inr hp)
-              rw [hobs1 p hkwp]
-              have hnex : excl.contains p.name = false := by
-                cases hc : excl.contains p.name with
-                | false => rfl
-                | true =>
-                  exfalso
-                  have hm : p.name ∈ excl := by simpa using hc
-                  rw [hexcl] at hm
-                  have h1' := keysOf_sub_names W s.pos args _ hm
-                  have hnd := wf.names_nodup
-                  rw [List.map_append, List.nodup_append] at hnd
-                  exact hnd.2.2 _ h1' _ (List.mem_map_of_mem hp) rfl
-              by_cases hpriv : W.priv p.name = true
-              · simp [hpriv, hprivkey p hkwp hpriv]
-              · have hpriv' : W.priv p.name = false := by simpa using hpriv
-                simp only [hpriv', hnex, Bool.or_self, Bool.false_eq_true, if_false]
-                cases c.lookup p.name <;> simp
-            · exact hobs2
-            · rw [hcaslen]; exact fillPo_length W _ true fill hfill
-          rw [hfinal]
-          cases hb : pyBindCore s cas c with
-          | none => simp [hb] at hexp
-          | some b' => simp [hb] at hexp; exact hexp
-    · cases hpb
+        simp [hcore]
+      | some c =>
+        simp only [hca, hck] at hcore hexp
+        obtain ⟨args', kw', hpp, hfin, _⟩ := hcore
+        simp only [hpp, hfin]
+        cases hb : pyBindCore s cas c with
+        | none => simp [hb] at hexp
+        | some b' => simp [hb] at hexp; exact hexp
 
 /-! ### corollaries in the property's words -/
 
@@ -543,6 +570,135 @@ theorem C08_by_name_eq_by_pos (W : World N V T) (hW : LowerIdem W) (s : Sig N V 
       exact ⟨C08_binding_partial W hW s wf o _ kw out hd ha hexp0,
         C08_binding_partial W hW s wf o args _ out hd' ha hexp'⟩
     · cases hpb
+
+/-! ### class contexts: the reserved first parameter -/
+
+/-- the outcome of the function without its first parameter, seen from the full declaration -/
+def consFirst (a : V) : Outcome N V → Outcome N V
+  | .body b => .body { b with pos := a :: b.pos }
+  | .perr => .perr
+  | .tyerr => .tyerr
+
+theorem pyBindCore_cons (s' : Sig N V T) (r : Param N V T) (a : V) (args' : List V) (kw' : List (N × V))
+    (hl : kw'.lookup r.name = none) :
+    pyBindCore { s' with pos := r :: s'.pos } (a :: args') kw'
+      = (pyBindCore s' args' kw').map (fun b => { b with pos := a :: b.pos }) := by
+  have hne : ∀ e ∈ kw', (r.name == e.1) = false := by
+    intro e he
+    have := (lookup_eq_none_iff_not_mem kw' r.name).mp hl
+    simp only [beq_eq_false_iff_ne, ne_eq]
+    intro h
+    exact this (h ▸ List.mem_map_of_mem he)
+  have hfilter : kw'.filter (fun e => !({ s' with pos := r :: s'.pos } : Sig N V T).kwTarget e.1)
+      = kw'.filter (fun e => !s'.kwTarget e.1) := by
+    apply List.filter_congr
+    intro e he
+    simp [Sig.kwTarget, hne e he]
+  unfold pyBindCore
+  simp only [hfilter, List.length_cons, Nat.add_lt_add_iff_right, List.drop_succ_cons]
+  rw [bindPos]
+  simp only [hl, Option.isSome_none, Bool.and_false, Bool.false_eq_true, if_false]
+  by_cases hlen : (s'.vp.isNone && decide (s'.pos.length < args'.length)) = true
+  · simp [hlen]
+  · simp only [hlen, Bool.false_eq_true, if_false]
+    cases bindPos kw' s'.pos args' with
+    | none => simp
+    | some bp =>
+      cases bindKos kw' s'.kos with
+      | none => simp
+      | some bk =>
+        simp only [Option.map_some]
+        split <;> simp
+
+/-- **class contexts.**  When the decorated object reserves its first parameter (instance method, `classmethod`,
+method of a class decorated as a whole), a call that passes `self`/`cls` first behaves as the function without that
+parameter: same ParseError / same binding, with the first argument handed through untouched. -/
+theorem C08_method_binding (W : World N V T) (hW : LowerIdem W) (c : Ctx) (full : Sig N V T) (r : Param N V T)
+    (ps : List (Param N V T)) (o : Opts) (self : V) (args : List V) (kw : List (N × V)) (out : Outcome N V)
+    (hres : firstReserve c full = true) (hpos : full.pos = r :: ps)
+    (wf : WF W { full with pos := ps })
+    (hr : ∀ p ∈ Spec.kwParams { full with pos := ps }, p.name ≠ r.name)
+    (hrk : r.name ∉ kw.map (·.1))
+    (hk : KnownDefect.privateKw W { full with pos := ps } kw = false)
+    (ha : KnownDefect.privateAnnotated W { full with pos := ps } = false)
+    (hexp : Spec.expected W { full with pos := ps } args kw = some out) :
+    callDecl W c full o (self :: args) kw = consFirst self out := by
+  obtain ⟨s', hs'⟩ : ∃ s' : Sig N V T, s' = { full with pos := ps } := ⟨_, rfl⟩
+  have hfull : full = { s' with pos := r :: s'.pos } := by
+    rw [hs']; cases full; simp at hpos; simp [hpos]
+  rw [← hs'] at wf hr hk ha hexp
+  have hcd : callDecl W c full o (self :: args) kw =
+      match parseParams W s' o args kw with
+      | .error _ => .perr
+      | .ok (args', kw') =>
+        match pyBindCore full (self :: args') kw' with
+        | none => .tyerr
+        | some b => .body b := by
+    unfold callDecl
+    rw [hres, hpos, hs']
+    rfl
+  rw [hcd]
+  unfold Spec.expected at hexp
+  simp only at hexp
+  cases hpb : Spec.pyBind s' args (Spec.normalise W s' kw) with
+  | none => simp [hpb] at hexp
+  | some b0 =>
+    simp only [hpb] at hexp
+    have hcore := binding_core W hW s' wf o args kw b0 hk ha hpb
+    have h1 : ∀ e ∈ kw, e.1 ∉ s'.excludeVars W := by
+      intro e he hmem
+      have : KnownDefect.privateKw W s' kw = true := by
+        unfold KnownDefect.privateKw
+        exact List.any_eq_true.mpr ⟨e, he, by simpa using hmem⟩
+      rw [hk] at this; cases this
+    cases hca : Spec.convArgs W (s'.vp.bind (·.2)) s'.pos args with
+    | none =>
+      simp only [hca] at hcore hexp
+      cases hexp
+      simp [hcore, consFirst]
+    | some cas =>
+      cases hck : Spec.convKw W s' (Spec.normalise W s' kw) with
+      | none =>
+        simp only [hca, hck] at hcore hexp
+        cases hexp
+        simp [hcore, consFirst]
+      | some ck =>
+        simp only [hca, hck] at hcore hexp
+        obtain ⟨args', kw', hpp, hfin, hext⟩ := hcore
+        simp only [hpp]
+        -- `self`'s name is not a key of what parse_params hands over
+        have hnt : s'.kwTarget r.name = false := by
+          cases ht : s'.kwTarget r.name with
+          | false => rfl
+          | true =>
+            obtain ⟨p, hp, hn⟩ := (kwTarget_iff s' _).mp ht
+            exact absurd hn (hr p hp)
+        have hl : kw'.lookup r.name = none := by
+          cases hh : kw'.lookup r.name with
+          | none => rfl
+          | some x =>
+            exfalso
+            have hmem := mem_of_lookup _ _ _ hh
+            have hmf : (r.name, x) ∈ kw'.filter (fun e => !isTarget s' e) :=
+              List.mem_filter.mpr ⟨hmem, by simp [isTarget, hnt]⟩
+            rw [hext] at hmf
+            have hkey : r.name ∈ ck.map (·.1) := List.mem_map_of_mem (List.mem_filter.mp hmf).1
+            rw [convKw_keys W s' _ ck hck] at hkey
+            simp only [Spec.normalise, List.map_map, List.mem_map, Function.comp] at hkey
+            obtain ⟨e, he, hne⟩ := hkey
+            -- a key normalises either to a keyword-capable parameter's name or to itself
+            unfold Spec.normKey at hne
+            split at hne
+            · rename_i p hfind
+              exact hr p (List.mem_of_find?_eq_some hfind) hne
+            · exact hrk (hne ▸ List.mem_map_of_mem he)
+        rw [hfull, pyBindCore_cons s' r self args' kw' hl, hfin]
+        cases hb : pyBindCore s' cas ck with
+        | none => simp [hb] at hexp
+        | some b' =>
+          simp only [hb, Option.map_some, Option.some.injEq] at hexp
+          subst hexp
+          simp [consFirst]
 
 /-! ### witnesses: the full statement is false of the code, the hypotheses are satisfiable -/
 
